@@ -214,14 +214,11 @@ class InletOutletManager(object):
                 x = pa.x
                 y = pa.y
                 z = pa.z
-                xmax, xmin = max(x)+dx/2, min(x)-dx/2
-                ymax, ymin = max(y)+dx/2, min(y)-dx/2
-                zmax, zmin = max(z)+dx/2, min(z)-dx/2
-                xdist = xmax - xmin
-                ydist = ymax - ymin
-                zdist = zmax - zmin
                 xn, yn, zn = info.normal[0], info.normal[1], info.normal[2]
-                info.length = abs(xdist*xn+ydist*yn+zdist*zn)
+                # Extent of the zone along its normal (the particles are
+                # dx/2 inside the zone at either end).
+                disp = x*xn + y*yn + z*zn
+                info.length = max(disp) - min(disp) + dx
 
     def add_io_properties(self, pa, scheme=None):
         """Add properties to be used in inlet/outlet equations
